@@ -31,6 +31,28 @@ CHECKS = {
             "bounded: 3 addresses, generations 0..3 of the own address, depth 4+3 (quick) / 6+5 (thorough)", E1, "DESIGN.md 3 C19"),
 }
 
+
+CHECKS.update({
+    "C06": ("E1", "model_checking",
+            "Hostile single-instance exploration: every datagram kind with adversarial fields (own identity/address as source, destination or relay target, unknown members, incarnation 0/65535, probe numbers 0/255, counts larger than present), fabricated timers of every variant with arbitrary tokens/identities, every public method with adversarial arguments (change_identity to a peer's identity, announce to itself), set_config with every legal variation (packet size 1/20/3000/70000, max_transmissions 1/255, fan-out 64, periodic tasks off), add_broadcast of 0..66000 bytes; all sequences to the depth bound under every RNG answer, catch_unwind around every call. Then every truncation / byte substitution / extension of every distinct datagram emitted there and all byte strings of length <=2 (<=3 thorough) against three receiver states, for FixCodec (fixed/variable identities), postcard and bincode; Config::new_lan/new_wan for every NonZeroU32 (thorough) or 2^20 values plus boundaries (quick). Run in a debug-assertion + overflow-check build and again in a plain release build; the two must agree level by level.",
+            "depth 3 (quick) / 4 (thorough) from scratch and from 3 formed states; allocation aborts are reproduced only in a child process (known finding F11); doubles trusted not to panic", E1, "DESIGN.md 3 C06"),
+    "C07": ("E3", "model_checking",
+            "Size sweep: each of the 11 message kinds produced through its real path (probe timer, incoming Ping/PingReq/IndirectPing/IndirectAck/Announce, gossip, announce, broadcast, inactive sender, suspicion timeout), memberships 0..6 with 0..2 Down, backlogs 0..6, 0..4 custom items, for EVERY max_packet_size from below-a-header to everything-fits+3 plus 1400 and 65536, five wire formats (FixCodec fixed/variable identities, postcard and bincode with String identities, postcard with integer identities). Every datagram is parsed by an independent grammar parser (header; count + exactly count members; length-prefixed non-empty items; nothing else; src/dst; Feed contents) and handed to a fresh real peer with the same codec and packet size, which must not answer Decode/MalformedPacket/DataTooBig and whose handler must see exactly the framed items. Plus the same grammar oracle on every datagram of an E1 exploration with small packet sizes.",
+            "identities of 4 shapes; the serde-format parser calls postcard/bincode directly; header-only piggybacking datagrams (no room for a count) count as well-formed", E3, "DESIGN.md 3 C07"),
+    "C12": ("E1", "model_checking",
+            "1..3 peers x fan-out 1..3; probe rounds driven by the timers Foca scheduled, delivered in deadline order; between them every interleaving of Ack / ForwardedAck from {target, asked helper, unasked member, unknown identity} x probe number {previous, current, next}, target going Down / refuting / being renamed, the last member leaving, change_identity, Ping and all four relay messages incl. the ones naming the instance itself. The harness computes 'evidence' literally from the statement and compares at the next round start: no suspicion iff evidence (or aborted / target changed), else Suspect + exactly one timeout; PingReq only when allowed, <= fan-out, distinct, active, never the target nor self; Ping => Ack(same number); relay hops preserve origin/target/number; relays for ourselves rejected.",
+            "bounded depth (quick 4+4, thorough 7+7); run fails as vacuous if an outcome class is never exercised", E1, "DESIGN.md 3 C12"),
+    "C15": ("E1", "model_checking",
+            "Reference backlog kept by the harness from OBSERVED acceptance (record at the address changed in a broadcasting call; plus leave/identity-change enqueues). For every piggybacking datagram: each carried update is byte-equal to a live entry (then decremented, dropped at zero), every omitted live entry is strictly larger than the space left, precedence by transmissions remaining; Feed/Announce/TurnUndead/Broadcast consume nothing; updates_backlog() equals the live entries after every call; hook cross-check of remaining transmissions. max_transmissions 1..3, packet sizes one-update-fits / two-fit / all-fit, fixed and variable update sizes; plus a scripted 255-transmission drain.",
+            "bounded depth (quick 4+4, thorough 6+6); alphabet keeps acceptances before sends within a call", E1, "DESIGN.md 3 C15"),
+    "C16": ("E1", "model_checking",
+            "Table-driven handler (versioned keys; invalidation relations newer-version / equal-key / never / always; recipient masks). Reference backlog of accepted items; every framed item of every outgoing datagram is byte-identical to a live accepted item, never on Announce/TurnUndead, never to a masked recipient, at most max_transmissions times, never after invalidation, nothing that fits is omitted; each datagram is delivered to a second real instance whose recording handler must see exactly the items, in order, once each, with the sender's identity. broadcast(): only Broadcast kind, no member section, <= fan-out distinct eligible active recipients, stops when drained, silent when empty.",
+            "bounded depth (quick 4+4, thorough 6+6); item sizes 3, 9, fits-exactly, fits-minus-one", E1, "DESIGN.md 3 C16"),
+    "C17": ("E1", "model_checking",
+            "Base exploration enumerates reachable states; in EVERY reachable state EVERY rejected input of 17 classes (oversized buffer, header truncated at every byte, bad kind byte, member list truncated at every byte, bad state byte, count > members, own identity / own address as source, one trailing byte, Announce with payload, wrong destination, stale-token timers of every variant, reuse when not defunct, change_identity to the current identity, the five forbidden set_config changes, empty / oversized add_broadcast) must return its documented result with an empty effect log and no RNG draw, and every continuation over the base alphabet (every RNG answer) must produce identical effects and results with and without it. Each state is also rebuilt from its history to check determinism.",
+            "base depth 3+2 (quick) / 4+3 with continuation depth 2 and rejected pairs (thorough)", E1, "DESIGN.md 3 C17"),
+})
+
 PENDING = {}  # property -> reason; filled below for everything not in CHECKS
 
 def main():
@@ -68,7 +90,7 @@ def main():
     engines = [e for e in engines if e["serves_properties"]]
     man = {
         "version": 1,
-        "setup_cmd": "cd /verif/harness && CARGO_NET_OFFLINE=true cargo build --release --offline",
+        "setup_cmd": "cd /verif/harness && CARGO_NET_OFFLINE=true cargo build --release --offline && CARGO_NET_OFFLINE=true cargo build --profile plain --offline",
         "hooks": {
             "guard": "cargo feature verif-hooks (foca/Cargo.toml [features])",
             "enable": "the harness depends on foca by path (/repo) with features [std, bincode-codec, postcard-codec, verif-hooks]; every check command rebuilds it from /repo's working tree",
